@@ -5,7 +5,9 @@
 //!  (d) protobuf encode / decode (templates, policy sets with links)
 //!  (e) equal authorization responses original vs round-tripped, 3 random worlds
 //!  (f) a JSON policy accepted by from_json evaluates like the Cedar text it prints as
-//! plus hand-built EST JSON (every operator key, odd-but-accepted shapes, rejected shapes).
+//! plus hand-built EST JSON (every operator key, odd-but-accepted shapes, rejected shapes; own / wrong / swapped slots in
+//! every scope-constraint form); every accepted JSON template is also LINKED (distinct slot values) and the link compared
+//! with its own to_json -> from_json round trip and with the same link of the template's printed Cedar text.
 //! Model lines: `(est to <json>)` = Rust's from_json, `(est of <expr>)` = Rust's to_json (as JSON values,
 //! object keys sorted), `(estpol to <json>)` = Rust's policy-level from_json.
 use crate::c01::gen_scope;
@@ -753,9 +755,12 @@ fn gen_est_json(r: &mut Rng, d: u32, out: &mut Out, bad_pct: u32) -> J {
     }
 }
 
-fn gen_scope_json(r: &mut Rng, slot: &str, allow_is: bool, bad_pct: u32) -> J {
+/// `slot_pct`: how often the right-hand side is a slot; `wrong_pct`: how often that slot is the OTHER variable's slot
+/// (`"resource": {"op":"in","slot":"?principal"}` — must be rejected, or else behave like some Cedar text)
+fn gen_scope_json(r: &mut Rng, slot: &str, allow_is: bool, bad_pct: u32, slot_pct: u32, wrong_pct: u32) -> J {
+    let other = if slot == "principal" { "resource" } else { "principal" };
     let ent_or_slot = |r: &mut Rng| -> (String, J) {
-        if r.chance(25) { ("slot".to_string(), json!(format!("?{slot}"))) }
+        if r.chance(slot_pct) { let name = if r.chance(wrong_pct) { other } else { slot }; ("slot".to_string(), json!(format!("?{name}"))) }
         else if r.chance(5) { let mut u = j_uid(r); u["extra"] = json!(1); ("entity".to_string(), u) }
         else if r.chance(15) { ("entity".to_string(), json!({"__entity": j_uid(r)})) }
         else { ("entity".to_string(), j_uid(r)) }
@@ -802,10 +807,14 @@ fn gen_policy_json(r: &mut Rng, out: &mut Out) -> J {
     let bad = if r.chance(25) { 6 } else { 0 };
     let mut m = serde_json::Map::new();
     m.insert("effect".into(), if r.chance(3) { json!({"permit": null}) } else { json!(if r.chance(bad) { "allow" } else if r.chance(60) { "permit" } else { "forbid" }) });
-    m.insert("principal".into(), gen_scope_json(r, "principal", true, bad));
+    // template mode: slots in most scope constraints, sometimes the other variable's slot, sometimes both swapped
+    let tmode = r.chance(30);
+    let (slot_pct, wrong_pct) = if tmode { (75, 20) } else { (25, 3) };
+    let swapped = tmode && r.chance(12);
+    m.insert("principal".into(), gen_scope_json(r, if swapped { "resource" } else { "principal" }, true, bad, slot_pct, wrong_pct));
     m.insert("action".into(), gen_action_json(r, bad));
-    let rslot = if r.chance(bad) { "principal" } else { "resource" };
-    m.insert("resource".into(), gen_scope_json(r, rslot, true, bad));
+    let rslot = if r.chance(bad) || swapped { "principal" } else { "resource" };
+    m.insert("resource".into(), gen_scope_json(r, rslot, true, bad, slot_pct, wrong_pct));
     let nc = r.below(4);
     let conds: Vec<J> = (0..nc).map(|_| {
         let d = 1 + r.below(3) as u32;
@@ -878,11 +887,118 @@ fn check_json_policy(worlds: &[World], j: &J, idx: u64, out: &mut Out) {
             Ok(t3) => if let Some(d) = diff_template(t.as_ref(), t3.as_ref()) { out.count("f_printed_differs_structurally"); let _ = d; },
             Err(e) => out.propfail("(f) the Cedar text a JSON template prints as does not parse", &case, &format!("{e} ; printed {printed}")),
         }
+        let mut reparsed: Option<cedar_policy::Template> = cedar_policy::Template::parse(Some(pid.clone()), &printed).ok();
         match t.to_json().map_err(|e| e.to_string()).and_then(|j2| cedar_policy::Template::from_json(Some(pid.clone()), j2).map_err(|e| e.to_string())) {
             Ok(t2) => if let Some(d) = diff_template(t.as_ref(), t2.as_ref()) { out.propfail("(a) JSON template -> to_json -> from_json differs", &case, &d); },
             Err(e) => out.propfail("(a) to_json of an accepted JSON template is rejected", &case, &e),
         }
+        check_json_template_links(worlds, &t, reparsed.take().as_ref(), &pid, &case, out);
     }
+}
+
+/// an accepted JSON template, LINKED: for every world and several pairs of distinct slot values (the request's own
+/// principal / resource, the two swapped, an ancestor of each) the linked policy must evaluate and authorize like
+///   * `Policy::from_json(linked.to_json())` (the JSON form of the link binds the same values to the same places), and
+///   * the same link of the template parsed from the Cedar text the JSON template prints as.
+fn check_json_template_links(worlds: &[World], t: &cedar_policy::Template, printed: Option<&cedar_policy::Template>, pid: &cedar_policy::PolicyId, case: &str, out: &mut Out) {
+    use cedar_policy::{PolicyId, PolicySet, SlotId};
+    use cedar_policy_core::entities::Dereference;
+    let lid = PolicyId::new(format!("{pid}-link"));
+    let slots_of = |t: &cedar_policy::Template| -> (bool, bool) { (t.slots().any(|s| *s == SlotId::principal()), t.slots().any(|s| *s == SlotId::resource())) };
+    let (has_p, has_r) = slots_of(t);
+    let link = |t: &cedar_policy::Template, vp: &ast::EntityUID, vr: &ast::EntityUID| -> Result<(PolicySet, cedar_policy::Policy), String> {
+        let (hp, hr) = slots_of(t);
+        let mut vals: HashMap<SlotId, cedar_policy::EntityUid> = HashMap::new();
+        if hp { vals.insert(SlotId::principal(), vp.clone().into()); }
+        if hr { vals.insert(SlotId::resource(), vr.clone().into()); }
+        let mut ps = PolicySet::new();
+        ps.add_template(t.clone()).map_err(|e| format!("add_template: {e}"))?;
+        ps.link(pid.clone(), lid.clone(), vals).map_err(|e| format!("link: {e}"))?;
+        let p = ps.policy(&lid).cloned().ok_or_else(|| "linked policy not in the set".to_string())?;
+        Ok((ps, p))
+    };
+    for (wi, w) in worlds.iter().enumerate() {
+        let anc = |u: &ast::EntityUID, dflt: &str| -> ast::EntityUID {
+            match w.entities.entity(u) { Dereference::Data(e) => { let mut a: Vec<&ast::EntityUID> = e.ancestors().collect(); a.sort(); a.first().map(|x| (*x).clone()).unwrap_or_else(|| gen::mk_uid("Group", dflt)) } _ => gen::mk_uid("Group", dflt) }
+        };
+        let choices = [(w.principal.clone(), w.resource.clone()), (w.resource.clone(), w.principal.clone()), (anc(&w.principal, "a"), anc(&w.resource, "b")), (w.principal.clone(), anc(&w.resource, "b"))];
+        for (vp, vr) in choices.iter() {
+            if vp == vr { continue; }
+            let lcase = format!("{case} LINK ?principal={vp} ?resource={vr} world={wi} request=({}, {}, {})", w.principal, w.action, w.resource);
+            let Some(linked) = guard(out, "PolicySet::link of an accepted JSON template", &lcase, || link(t, vp, vr)) else { continue };
+            let (ps, linked) = match linked { Ok(x) => x, Err(e) => { out.count("tl_link_refused"); out.sample(format!("link refused: {e} :: {case}")); continue } };
+            out.count("tl_links");
+            let a = eval_of(w, linked.as_ref());
+            let ra = resp_of(w, ps.as_ref());
+            if let Ok(x) = &a { out.count(&format!("tl_linked_eval:{}", x.split(')').next().unwrap_or(""))); }
+            // (1) the link's own JSON form
+            match guard(out, "to_json of a template-linked policy", &lcase, || linked.to_json()) {
+                None => {}
+                Some(Err(e)) => out.propfail("(a) to_json fails for a policy linked from an accepted JSON template", &lcase, &e.to_string()),
+                Some(Ok(j2)) => match guard(out, "Policy::from_json", &lcase, || cedar_policy::Policy::from_json(Some(lid.clone()), j2.clone())) {
+                    None => {}
+                    Some(Err(e)) => out.propfail("(a) from_json rejects the to_json of a policy linked from an accepted JSON template", &lcase, &format!("{e} ; json {j2}")),
+                    Some(Ok(back)) => {
+                        out.count("tl_json_roundtrips");
+                        let b = eval_of(w, back.as_ref());
+                        let mut ps2 = PolicySet::new();
+                        let rb = if ps2.add(back.clone()).is_ok() { resp_of(w, ps2.as_ref()) } else { Err("cannot add".into()) };
+                        if a != b || ra != rb {
+                            out.propfail("(e) a policy linked from an accepted JSON template evaluates differently after its own to_json -> from_json round trip", &lcase, &format!("linked: {a:?} {ra:?} ; round-tripped: {b:?} {rb:?} ; linked policy `{linked}` ; its json {j2} ; round-tripped policy `{back}`"));
+                        }
+                    }
+                },
+            }
+            // (2) the link of the Cedar text the template prints as
+            if let Some(t3) = printed {
+                if slots_of(t3) != (has_p, has_r) {
+                    out.propfail("(f) the Cedar text a JSON template prints as has different slots", &lcase, &format!("printed `{t3}`"));
+                    continue;
+                }
+                match guard(out, "PolicySet::link of the printed template", &lcase, || link(t3, vp, vr)) {
+                    Some(Ok((ps3, linked3))) => {
+                        out.count("tl_printed_links");
+                        let c = eval_of(w, linked3.as_ref());
+                        let rc = resp_of(w, ps3.as_ref());
+                        if a != c || ra != rc {
+                            out.propfail("(f) a policy linked from an accepted JSON template evaluates differently from the same link of the Cedar text the template prints as", &lcase, &format!("linked: {a:?} {ra:?} ; printed+linked: {c:?} {rc:?} ; printed `{t3}`"));
+                        }
+                    }
+                    Some(Err(e)) => out.propfail("(f) the Cedar text a JSON template prints as cannot be linked with the same slot values", &lcase, &e),
+                    None => {}
+                }
+            }
+        }
+    }
+}
+
+/// hand-built JSON templates: every scope-constraint form that takes a slot (`==`, `in`, `is … in`) on principal and
+/// on resource, with the variable's own slot and with the OTHER variable's slot (wrong-slot, and both swapped)
+fn slot_scope_grid() -> Vec<J> {
+    let scope = |var: &str, form: usize, slot: &str| -> J {
+        let ty = if var == "principal" { "User" } else { "NS::Doc" };
+        match form {
+            0 => json!({"op": "==", "slot": slot}),
+            1 => json!({"op": "in", "slot": slot}),
+            2 => json!({"op": "is", "entity_type": ty, "in": {"slot": slot}}),
+            _ => json!({"op": "All"}),
+        }
+    };
+    let mut v = Vec::new();
+    for pf in 0..4usize {
+        for ps in ["?principal", "?resource"] {
+            for rf in 0..4usize {
+                for rs in ["?resource", "?principal"] {
+                    if (pf == 3 && ps == "?resource") || (rf == 3 && rs == "?principal") || (pf == 3 && rf == 3) { continue; }
+                    for effect in ["permit", "forbid"] {
+                        if effect == "forbid" && !(ps == "?resource" || rs == "?principal") { continue; }
+                        v.push(json!({"effect": effect, "principal": scope("principal", pf, ps), "action": {"op": "All"}, "resource": scope("resource", rf, rs), "conditions": []}));
+                    }
+                }
+            }
+        }
+    }
+    v
 }
 
 // ---------------------------------------------------------------- fixed seeds: one expression per operator key
@@ -959,6 +1075,15 @@ pub fn run(args: &Args, out: &mut Out) {
                 k += 1; out.count("nesting_grid");
             }
         } }
+    }
+    // slot grid: hand-built JSON templates with own / wrong / swapped slots in every scope-constraint form
+    {
+        let mut gr = Rng::new(args.seed ^ 0x5107);
+        let worlds: Vec<World> = (0..3).map(|_| gen::gen_world(&mut gr)).collect();
+        for (k, j) in slot_scope_grid().iter().enumerate() {
+            check_json_policy(&worlds, j, 900_000 + k as u64, out);
+            out.count("slot_scope_grid");
+        }
     }
     // generated policies / templates / sets
     let mut i = 0u64;
